@@ -298,7 +298,9 @@ class History:
         for t in tokens_of(self.pending_prefix() + data):
             if t not in self.toks:
                 self.toks.append(t)
+        self.last_attempt = data        # kept for the oracle when parse raises inside feed
         outs = feed(self.system, data)
+        self.last_attempt = None
         sn = self.snap()
         for t in self.toks:
             try:
@@ -393,7 +395,8 @@ BAD_TS = ['nan', 'NaN', '-nan', 'inf', '-inf', 'Infinity', '+inf', '1e400', '-1e
           '0x10', '--5', '1e', '1.2.3', '\xa0', '12\xa0', '\xb2', '1e308', '-0', '0', '1', '1e-400',
           '9' * 30]
 INT_TOKS = ['0', '1', '5', '6', '7', '13', '14', '15', '-1', '-0', '+3', ' 4 ', '1_0', '007', '2000', '2001',
-            '1.0', '1e3', 'abc', '', '*', '**', ' *', '0x1F', '9' * 25, '-' + '9' * 25, '\xb2', '4\n']
+            '1.0', '1e3', 'abc', '', '*', '**', ' *', '0x1F', '9' * 25, '-' + '9' * 25, '\xb2', '4\n',
+            'inf', '-inf', 'nan', 'Infinity', '1e999', '10.0']
 FLT_TOKS = ['0', '1.5', '2000', '2000.0', '2000.0000001', '2001', '1e3', '1e4', '-5', 'nan', 'inf', '-inf',
             '1e400', 'abc', '', '*', '1_000.5', ' 7 ', '.5', '5.', '0x1p3', '1e-400', 'Infinity', '-nan']
 NAMES_OTHER = ['foo', 'Status', 'STATUS', 'statuss', 'get', 'a', 'z9', 'a-', 'a--b', 'start-', 'stop1', 'get_tpi', 'a_b',
